@@ -267,6 +267,9 @@ def siblings(ctx, obs, rule='SIB'):
         obs.check(isinstance(m, ast.Name) and m.id == 'method', 'FWD', q, 'the result records the method', '', '', where(prog, f, c))
     # chunk boundaries cover all centres
     spl = [c for c in ast.walk(f.node) if isinstance(c, ast.Call) and _leaf(c.func) == 'split']
+    if not spl:
+        obs.unk(rule, q, 'chunks partition arange(n_centers)', 'the chunks are not made with np.split: construction not recognised',
+                where(prog, f, sp))
     for c in spl:
         ok = len(c.args) == 2 and 'arange(n_centers)' in norm(c.args[0]).replace('np.', '')
         obs.soft(ok, rule, q, 'chunks partition arange(n_centers)', f'`{norm(c)[:80]}`', '', where(prog, f, c))
